@@ -1,0 +1,21 @@
+//go:build verif
+// +build verif
+
+package runner
+
+import (
+	"github.com/taskctl/taskctl/internal/veriftrace"
+)
+
+func init() {
+	if !veriftrace.Enabled() {
+		return
+	}
+	VerifEventHook = func(r *TaskRunner, ev string, name string, err error) {
+		e := map[string]interface{}{"e": ev}
+		if name != "" {
+			e["t"] = name
+		}
+		veriftrace.Emit(e)
+	}
+}
